@@ -90,6 +90,16 @@ def programs(tier):
                 add(("join", st, ("leaf", other), pred, "apply"))
                 add(("join", ("leaf", other), ("sel", st, ("gt", ("ref", "a"), ("lit", "$k2"))), pred, "apply"))
                 add(("dedup", ("join", ("proj", st, ("a",)), ("leaf", other), pred, "apply")))
+        # join predicates holding engine-restricted functions, also where the predicate folds to a constant (a join keeps its
+        # predicate object whatever it folds to, so the node must still be supported by its engine - or the call must refuse)
+        Ar, Br = ("ref", "a"), ("ref", "b")
+        for other in same:
+            for kind in ("sq", "it"):
+                r = ("rgt", Br, Ar, kind)
+                for pred in (r, ("or", r, ("plit", True)), ("not", ("and", r, ("plit", False))), ("and", ("plit", True), ("or", ("plit", True), r))):
+                    add(("join", st, ("leaf", other), pred))
+                    add(("join", ("leaf", other), st, pred, (True, True)))
+                    add(("join", st, ("leaf", other), pred, "apply"))
         # two transfers: start -> transfer -> one operation -> transfer (back or onwards) -> final operation with every option set
         for dest in meprogs.ENGINES:
             x = ("xfer", st, dest)
